@@ -133,7 +133,7 @@ MUTANTS = [
     ("zipper guard inverted", "yastn/tn/mps/_compression.py", "    if not normalize:\n        psi.factor = psi.factor * a.factor", "    if normalize:\n        psi.factor = psi.factor * a.factor", "FF6"),
     ("zipper overwrites factor", "yastn/tn/mps/_compression.py", "        psi.factor = psi.factor * nS\n\n    tmp = tmp.fuse_legs(axes=((0, 1), 2))", "        psi.factor = nS\n\n    tmp = tmp.fuse_legs(axes=((0, 1), 2))", "FF6"),
     ("boundary charge without signature", "yastn/tn/mps/_env.py", "        n_rt = ket.config.sym.add_charges(legv.t[0], signatures=(legv.s,), new_signature=-1)", "        n_rt = ket.config.sym.add_charges(legv.t[0], new_signature=-1)", "FF7"),
-    ("ket conjugated in Env2", "yastn/tn/mps/_env.py", "        tmp = tensordot(self.ket.A[n], vecR, axes=(2, 0))\n", "        tmp = tensordot(self.ket.A[n].conj(), vecR, axes=(2, 0))\n", "FF8"),
+    ("ket conjugated in Env2", "yastn/tn/mps/_env.py", "        tmp = tensordot(self.ket.A[n], vecR, axes=(2, 0))\n        tmp = tmp.swap_gate(axes=1, charge=vecR.n)\n        axes = ((1, 2), (1, 2)) if self.nr_phys == 1 else ((1, 3, 2), (1, 2, 3))", "        tmp = tensordot(self.ket.A[n].conj(), vecR, axes=(2, 0))\n        tmp = tmp.swap_gate(axes=1, charge=vecR.n)\n        axes = ((1, 2), (1, 2)) if self.nr_phys == 1 else ((1, 3, 2), (1, 2, 3))", "FF8"),
     ("env factor forgets op", "yastn/tn/mps/_env.py", "        return self.bra.factor * self.op.factor * self.ket.factor", "        return self.bra.factor * self.ket.factor", "FF1"),
 ]
 BENIGN = [
